@@ -372,7 +372,8 @@ identical result for every segmentation. non-trivial = >=2 fields and one of {du
                 3 => usize::MAX,
                 _ => m,
             };
-            let (res, _net, _guard) = get_scripted(events, |rb| rb.max_headers(limit).follow_redirects(false));
+            let (res, _net, _guard) = get_scripted(events, |rb| rb.max_headers(limit).follow_redirects(![301u16, 302, 303, 307, 308].contains(&case.status)));
+            // (following is left on for every status the client never follows, the other 3xx codes included)
             let resp = match res {
                 Ok(r) => r,
                 Err(e) => {
